@@ -380,13 +380,22 @@ class Flow:
             t1, f1 = self.cond(e["l"], st)
             t2, f2 = self.cond(e["r"], t1)
             f = join(f1, f2)
-            if f is not BOT and (f1 is BOT or f2 is BOT):
-                pass
+            whole = ("G", _reg(show(e), e), None, deps_of(e))
+            if t2 is not BOT:
+                t2 = t2 | {(whole[0], whole[1], True, whole[3])}
+            if f is not BOT:
+                f = f | {(whole[0], whole[1], False, whole[3])}
             return t2, f
         if k == "Binary" and e["op"] == "||":
             t1, f1 = self.cond(e["l"], st)
             t2, f2 = self.cond(e["r"], f1)
-            return join(t1, t2), f2
+            t = join(t1, t2)
+            whole = ("G", _reg(show(e), e), None, deps_of(e))
+            if t is not BOT:
+                t = t | {(whole[0], whole[1], True, whole[3])}
+            if f2 is not BOT:
+                f2 = f2 | {(whole[0], whole[1], False, whole[3])}
+            return t, f2
         st2 = self.expr(e, st)
         if st2 is BOT:
             return BOT, BOT
